@@ -221,6 +221,7 @@ func (sfd *StatusFileData) Save(filename string) error {
 	if err != nil {
 		return err
 	}
+	verifStatusWrite(filename, -1, -1, sfd.State, sfd.StdoutSize)
 	err = sfd.saveToFile(file)
 	if err != nil {
 		serr := file.Close()
@@ -317,7 +318,9 @@ func (sfd *StatusFileData) UpdateFullStatus(filename string, statusFunc func(*St
 			return err
 		}
 	}
+	verifOldState, verifOldSize := sfd.State, sfd.StdoutSize
 	statusFunc(sfd)
+	verifStatusWrite(filename, verifOldState, verifOldSize, sfd.State, sfd.StdoutSize)
 	_, err = file.Seek(0, 0)
 	if err != nil {
 		return err
